@@ -640,6 +640,12 @@ def run(rep, props, replay=None):
     if replay is not None:
         replay_case(rep, col, replay)
         return
+    from harness import fd as _fd
+    _fd.dtype_monitor(rep, rng, {
+        "a + a": lambda d: (d + d).values, "a - 2": lambda d: (d - 2).values, "a * a": lambda d: (d * d).values,
+        "a / (a * a + 1)": lambda d: (d / (d * d + 1)).values, "a / 4": lambda d: (d / 4).values,
+        "3 * a": lambda d: (3 * d).values if hasattr(type(d), "__rmul__") else (d * 3).values,
+        "a // (a * a + 1)": lambda d: (d // (d * d + 1)).values}, "arithmetic")
     arithmetic(rep, col, rng, quick)
     scalars(rep, col, rng, quick)
     equality(rep, col, rng, quick)
